@@ -196,6 +196,13 @@ theorem addRaw_never_panics (H : Nat → Id) (cw : Perm → Bool) (keep : Bool) 
           exact validateAll_no_panic cw keep l _ t.rootId _ inv.prevs he
         · simp
 
+/-- (fix-tree-noprev) whatever `Tree.Add` attaches has at least one previous id and all of them are
+attached: with a tree whose attached changes are reachable from the root, so are the new ones — the
+root-based full validation, iteration, heads and order ids see every attached change -/
+theorem attached_changes_have_attached_parents (att new : List Change) :
+    ∀ c ∈ (treeAdd att new).added, c.prev ≠ [] ∧ ∀ pid ∈ c.prev, hasId (treeAdd att new).attached pid = true :=
+  fun c hc => ⟨(addInv_treeAdd att new).hasPrev c hc, (addInv_treeAdd att new).prevs c hc⟩
+
 /-! ## a rejected batch is a no-op -/
 
 /-- **reject_is_noop.** Whatever the reason (bad content id, bad signature, undecodable bytes —
@@ -453,6 +460,53 @@ theorem validateRawTree_implies_authentic (H : Nat → Id) (cw : Perm → Bool) 
           · split at h
             · cases h
             · cases h; exact hpres
+
+/-! ## the local path -/
+
+/-- **AddContent (local path).** A change added locally is attached and persisted only if the signing
+account can write now AND — per the specification `permAt` — at the ACL head record the change
+cites, and every head it builds on is attached and cites a record that is not later. (Its id and
+signature are produced by the builder itself.) -/
+theorem addContent_implies_authorised (cw : Perm → Bool) (hcw : cw 0 = false) (keep : Bool) (l : Log)
+    (hnd : (l.map (·.id)).Nodup) (t : TreeSt) (id : Id) (a : Acc) (added : List Id) (t' : TreeSt)
+    (h : addContent cw keep l t id a = (.ok, added, t')) :
+    added = [id] ∧ cw (permAfter l a) = true ∧
+    ∃ c, t'.attached = t.attached ++ [c] ∧ t'.stored = t.stored ++ [id] ∧
+      c.id = id ∧ c.identity = a ∧ c.prev = t.heads ∧ c.derived = false ∧
+      ∃ i, idxOf l c.aclHead = some i ∧ cw (permAt l i a) = true ∧
+        (c.id = t.rootId ∨ ∀ pid ∈ c.prev, ∃ pc ∈ t.attached, pc.id = pid ∧
+          (pc.derived = true ∨ ∃ j, idxOf l pc.aclHead = some j ∧ j ≤ i)) := by
+  unfold addContent at h
+  split at h
+  · cases h
+  · rename_i hperm
+    split at h
+    · cases h
+    · rename_i hd hhd
+      simp only at h
+      split at h
+      · cases h
+      · rename_i hv
+        simp only [Prod.mk.injEq] at h
+        obtain ⟨_, rfl, rfl⟩ := h
+        refine ⟨rfl, by simpa using hperm, _, rfl, rfl, rfl, rfl, rfl, rfl, ?_⟩
+        rcases validateChange_ok hcw hnd hv with hder | hrest
+        · cases hder
+        · exact hrest
+
+/-- a refused local change leaves the tree and the storage untouched -/
+theorem addContent_reject_is_noop (cw : Perm → Bool) (keep : Bool) (l : Log) (t : TreeSt) (id : Id) (a : Acc)
+    (e : Err) (added : List Id) (t' : TreeSt) (h : addContent cw keep l t id a = (.err e, added, t')) :
+    t' = t ∧ added = [] := by
+  unfold addContent at h
+  split at h
+  · simp only [Prod.mk.injEq] at h; exact ⟨h.2.2.symm, h.2.1.symm⟩
+  · split at h
+    · simp only [Prod.mk.injEq] at h; exact ⟨h.2.2.symm, h.2.1.symm⟩
+    · simp only at h
+      split at h
+      · simp only [Prod.mk.injEq] at h; exact ⟨h.2.2.symm, h.2.1.symm⟩
+      · cases h
 
 /-! ## non-vacuity: concrete runs of the model -/
 
